@@ -272,35 +272,19 @@ def replay(rec: dict) -> bool:
     if rp.get("type") == "dirty-history":
         if not isinstance(rp["cfg"], dict):
             return False  # scenario directory copied to a temporary place: re-run the check instead
-        used = scen.make_env(rp["cfg"])
-        for op in rp["history"]:
-            if op[0] == "reset":
-                used.reset(seed=op[1])
-            else:
-                used.step(op[1] % int(used.action_space.n))
+        _prepare_replay()
+        history = [tuple(x) for x in rp["history"]]
         later = [tuple(x) for x in rp["later"]]
-        t1 = iso.run_ops(used, later, iso.Canon())
-        fresh = scen.make_env(rp["cfg"])
-        for _ in range(sum(1 for op in rp["history"] if op[0] == "reset")):
-            fresh.reset(seed=0)
-        t2 = iso.run_ops(fresh, later, iso.Canon())
-        return iso.first_difference(t1, t2) is None
+        fresh_resets = rp.get("fresh_resets", sum(1 for op in history if op[0] == "reset"))
+        return iso.compare_after_history(rp["cfg"], history, fresh_resets, later)["diff"] is None
     return False  # identity / scheduler / global-mutated records are not re-executable on their own: re-run the check
 
 
 def _shrink_schedule(cfg_a, cfg_b, schedule, channels) -> List[Tuple]:
     """drop B-operations (and trailing A-steps) while the same channel still shows a difference"""
     def fails(cand):
-        if not any(e[0] == "A" and e[1] == "construct" for e in cand):
+        if not iso.schedule_well_formed(cand):
             return False
-        # B must be constructed before it is used
-        seen_b = False
-        for e in cand:
-            if e[0] == "B":
-                if e[1] == "construct":
-                    seen_b = True
-                elif not seen_b:
-                    return False
         try:
             r = iso.interleaving(cfg_a, cfg_b, cand)
         except Exception:
@@ -530,8 +514,12 @@ def _build_units(ctx: Ctx, rng: Rng) -> List[dict]:
     for f in sorted(CORPUS.glob("*.json")):
         units.append({"kind": "corpus", "label": f.stem, "file": str(f), "weight": 2})
     for label, spec in _dirty_specs(ctx, rng):
-        units.append({"kind": "dirty", "label": label, **spec, "episodes": rng.range(1, 3), "seed": rng.below(2 ** 31), "rng": rng.fork("dh" + label),
-                      "weight": 30 if ("uc7" in label or "multi_lan" in label) else 8})
+        # which members of the seed family (0, 1, configured, largest, random, None) this case resets with, in which order: seed 0 and "no
+        # seed argument" in every case, the others in rotation (quick) / all of them (thorough)
+        n_dirty_units = sum(1 for u in units if u["kind"] == "dirty")
+        pick = rng.shuffle([0, 5, 1 + n_dirty_units % 4] if not ctx.thorough else [0, 1, 2, 3, 4, 5])
+        units.append({"kind": "dirty", "label": label, **spec, "episodes": rng.range(1, 3), "pick": pick, "rng": rng.fork("dh" + label),
+                      "weight": 30 if ("uc7" in label or "multi_lan" in label) else 10})
     for label_a, label_b, cfg_a, cfg_b in _pairs(ctx, rng):
         for rep in range(ctx.scale(1, 3)):
             units.append({"kind": "pair", "label": f"{label_a}|{label_b}#{rep}", "la": label_a, "lb": label_b, "cfg_a": cfg_a, "cfg_b": cfg_b,
@@ -560,6 +548,11 @@ def _do_corpus(rec: Rec, unit: dict):
 _ALLOWED = None
 
 
+def _seed_class(seed: Optional[int], configured: Optional[int]) -> str:
+    return ("none" if seed is None else "zero" if seed == 0 else "one" if seed == 1 else "largest" if seed == iso.SEED_MAX
+            else "configured" if seed == configured or (configured is None and seed == 3) else "random")
+
+
 def _do_dirty(ctx: Rec, unit: dict):
     """(a) dirty history, (c) identity, (d) scheduler"""
     global _ALLOWED
@@ -574,39 +567,61 @@ def _do_dirty(ctx: Rec, unit: dict):
         ctx.notes.append(f"dirty-history {label}: scenario missing")
         return
     n_dirty, n_later = ctx.scale(30, 70), ctx.scale(16, 40)
-    episodes, seed = unit["episodes"], unit["seed"]
+    episodes = unit["episodes"]
+    cfg0 = cfg
+    if not isinstance(cfg, dict):
+        try:
+            cfg0 = isd.join_cfg(isd.read_folder(cfg), 0)
+        except Exception:
+            cfg0 = {}
+    fam = iso.seed_family(iso.configured_seed(cfg0), rng.fork("family"))
+    seeds = [fam[i] for i in unit["pick"]]
     try:
-        r = iso.dirty_history(cfg, rng, n_dirty, n_later, episodes, seed, make=maker)
+        r = iso.dirty_history(cfg, rng, n_dirty, n_later, episodes, seeds, make=maker)
     except Exception as e:
         ctx.notes.append(f"dirty-history {label}: not runnable: {type(e).__name__}: {str(e)[:120]}")
         ctx.count("dirty:not-runnable")
         return
     ctx.count("dirty:case")
     ctx.traces += 1
-    for i, op in enumerate(r["later"]):
-        ctx.case({"k": "dirty", "sc": label, "d": r["digest"], "i": i}, op[0] == "reset" or op[1] != 0)
     ctx.count("dirty:history-ops", len(r["history"]))
     for key, n in r.get("dirtied", {}).items():
         ctx.count("dirty:" + key, n)
-    if r["diff"] is not None:
-        d = r["diff"]
-        ctx.violation({"kind": "reset-not-fresh", "component": d["component"], "where": "/".join(str(d.get("path", "")).split("/")[:4])},
-                      f"{label}: after {episodes} dirty episode(s), reset(seed={seed}) + the same actions differ from a fresh environment at "
-                      f"record {d['index']} in {d['component']} {d.get('path', '')}: used={d.get('a')} fresh={d.get('b')}",
-                      {"type": "dirty-history", "scenario": label, "cfg": cfg if isinstance(cfg, dict) else str(cfg), "history":
-                       [list(x) for x in r["history"]], "later": [list(x) for x in r["later"]], "diff": d})
-    # model: used = instance 0, fresh = instance 1, same environment-level attributes
     sched_flag = 0 if isinstance(cfg, dict) else 1
     rngflag = int(iso.uses_global_rng(cfg)) if isinstance(cfg, dict) else 1
-    lines = ["reset", f"new 0 7 1 0 {rngflag} {sched_flag}", f"new 1 7 1 0 {rngflag} {sched_flag}", "ev 0 constructns 0"]
-    for op in r["history"]:
-        lines.append("ev 0 resetns 0" if op[0] == "reset" else f"ev 0 step {op[1] % 1000}")
-    later_lines = [f"ev X reset {r['later'][0][1] % 100000}"] + [f"ev X step {op[1] % 1000}" for op in r["later"][1:]]
-    lines += [l.replace("X", "0") for l in later_lines]
-    lines += ["ev 1 constructns 0"] + ["ev 1 resetns 0"] * (episodes - 1) + [l.replace("X", "1") for l in later_lines]
-    lines.append(f"cmptail 0 1 {len(later_lines)}")
-    ctx.model_lines += lines
-    ctx.expectations += [("skip", None)] * (len(lines) - 1) + [("dirty", (label, r["diff"] is None))]
+    gs = cfg0.get("game", {}).get("seed")
+    ctor = f"constructopt {iso.seed_text(gs if isinstance(gs, int) else None)}"
+    reported = False
+    for res in r["results"]:
+        seed = res["seed"]
+        cls = _seed_class(seed, iso.configured_seed(cfg0))
+        ctx.count(f"dirty:seed-argument:{cls}")
+        if seed is None:
+            ctx.count("dirty:unseeded-reset:" + ("equals" if res.get("unseeded_equals_plain_fresh") else "differs-from") +
+                      "-a-fresh-environment-that-is-not-given-the-generator-state(measured,by-design)")
+        for i, op in enumerate(res["later"]):
+            ctx.case({"k": "dirty", "sc": label, "d": res["digest"], "i": i, "seed": iso.seed_text(seed)}, op[0] == "reset" or op[1] != 0)
+        if res["diff"] is not None and not reported:
+            reported = True
+            d = res["diff"]
+            ctx.violation({"kind": "reset-not-fresh", "component": d["component"], "where": "/".join(str(d.get("path", "")).split("/")[:4]), "seed": cls},
+                          f"{label}: after a history of {len(res['history'])} operations ({res['fresh_resets']} resets), reset({'seed=' + str(seed) if seed is not None else ''}) "
+                          f"+ the same actions differ from a fresh environment"
+                          + (" that starts its reset from the same generator state" if seed is None else "") +
+                          f" at record {d['index']} in {d['component']} {d.get('path', '')}: used={d.get('a')} fresh={d.get('b')}",
+                          {"type": "dirty-history", "scenario": label, "cfg": cfg if isinstance(cfg, dict) else str(cfg),
+                           "history": [list(x) for x in res["history"]], "fresh_resets": res["fresh_resets"], "later": [list(x) for x in res["later"]], "diff": d})
+        # model: used = instance 0, fresh = instance 1, same environment-level attributes; the seed argument goes to the model AS IT IS
+        lines = ["reset", f"new 0 7 1 0 {rngflag} {sched_flag}", f"new 1 7 1 0 {rngflag} {sched_flag}", f"ev 0 {ctor}"]
+        for op in res["history"]:
+            lines.append(f"ev 0 resetopt {iso.seed_text(op[1])}" if op[0] == "reset" else f"ev 0 step {op[1] % 1000}")
+        later_lines = [f"ev X resetopt {iso.seed_text(seed)}"] + [f"ev X step {op[1] % 1000}" for op in res["later"][1:]]
+        lines += (["saverng"] if seed is None else []) + [l.replace("X", "0") for l in later_lines]
+        lines += [f"ev 1 {ctor}"] + [f"ev 1 resetopt {1000003 + k}" for k in range(res["fresh_resets"])]
+        lines += (["restorerng"] if seed is None else []) + [l.replace("X", "1") for l in later_lines]
+        lines.append(f"cmptail 0 1 {len(later_lines)}")
+        ctx.model_lines += lines
+        ctx.expectations += [("skip", None)] * (len(lines) - 1) + [("dirty", (f"{label}/seed={iso.seed_text(seed)}", res["diff"] is None))]
     # (c) identity disjointness: old game vs new game of the used environment; used vs fresh environment
     if _ALLOWED is None:
         _ALLOWED = iso.import_time_objects()
@@ -634,7 +649,8 @@ def _do_dirty(ctx: Rec, unit: dict):
     for p in probs:
         ctx.violation({"kind": "scheduler-shares-state", "what": p.split(" ")[0]}, f"{label}: {p}", {"type": "scheduler", "scenario": label, "problem": p})
     ctx.sample({"rig": "dirty-history", "scenario": label, "dirty_episodes": episodes, "history_ops": len(r["history"]),
-                "later_ops": len(r["later"]), "equal": r["diff"] is None}, cap=8)
+                "reset_arguments_compared": [iso.seed_text(x["seed"]) for x in r["results"]], "later_ops": [len(x["later"]) for x in r["results"]],
+                "equal": r["diff"] is None}, cap=8)
     for e in (r["used"], r["fresh"]):
         try:
             e.close()
@@ -651,7 +667,14 @@ def _do_pair(ctx: Rec, unit: dict):
     except Exception as e:
         ctx.notes.append(f"pair {unit['label']}: not constructible: {type(e).__name__}: {str(e)[:100]}")
         return
-    sched = iso.gen_schedule(unit["rng"], ctx.scale(18, 45), sa, sb, unit["b_first"])
+    for e in (ea, eb):
+        try:
+            e.close()
+        except Exception:
+            pass
+    fam_a = iso.seed_family(iso.configured_seed(cfg_a), unit["rng"].fork("famA"))
+    fam_b = iso.seed_family(iso.configured_seed(cfg_b), unit["rng"].fork("famB"))
+    sched = iso.gen_schedule(unit["rng"], ctx.scale(18, 45), sa, sb, unit["b_first"], fam_a=fam_a, fam_b=fam_b)
     _interleaving_case(ctx, f"{unit['la']}|{unit['lb']}", unit["la"], unit["lb"], cfg_a, cfg_b, sched, ctx.model_lines, ctx.expectations, shrink=True)
 
 
@@ -722,6 +745,17 @@ def _pairs(ctx: Ctx, rng: Rng):
     return out
 
 
+_OPEN: Optional[List[dict]] = None
+
+
+def _is_known(sig: dict) -> bool:
+    global _OPEN
+    from harness.lib.core import load_findings, sig_matches
+    if _OPEN is None:
+        _OPEN = [f for f in load_findings() if f["property"] == "C04" and f.get("status") == "open"]
+    return any(sig_matches(f["signature"], sig) for f in _OPEN)
+
+
 def _interleaving_case(ctx: "Rec", label: str, la, lb, cfg_a: Dict, cfg_b: Dict, sched: List[Tuple], model_lines: List[str],
                        expectations: List[Tuple[str, Any]], shrink: bool):
     try:
@@ -738,11 +772,13 @@ def _interleaving_case(ctx: "Rec", label: str, la, lb, cfg_a: Dict, cfg_b: Dict,
     k = 0
     prev_b = False
     for e in sched:
-        if e[0] == "B":
+        if e[0] != "A":
             prev_b = True
             continue
         if e[1] == "construct":
             continue
+        if e[1] == "reset":
+            ctx.count("interleave:A-reset-argument:" + _seed_class(e[2], iso.configured_seed(cfg_a)))
         ctx.case({"k": "il", "pair": label, "d": r["digest"], "i": k, "s": hash(tuple(sched)) & 0xffffff}, prev_b or (e[1] == "step" and e[2] != 0))
         prev_b = False
         k += 1
@@ -753,13 +789,15 @@ def _interleaving_case(ctx: "Rec", label: str, la, lb, cfg_a: Dict, cfg_b: Dict,
         og = r["own_globals"]
         ctx.violation({"kind": "instance-interference", "channel": "own-build-does-not-rewrite-globals"},
                       f"{label}: right after instance A's own construct/reset #{og['index']} the run-time written globals an operation may read "
-                      f"({', '.join(_READ_GLOBALS)}) are {og['interleaved']} with instance B interleaved but {og['solo']} alone: A's "
-                      f"from_config does not (re)write them from A's scenario", {**replay_info, "channel": "own-build-does-not-rewrite-globals", "own_globals": og})
+                      f"({', '.join(_READ_GLOBALS)}; after a seeding operation also the state of the process-global generators) are "
+                      f"{og['interleaved']} with other instances interleaved but {og['solo']} alone: A's own operation does not (re)write them "
+                      f"from A's scenario / seed argument", {**replay_info, "channel": "own-build-does-not-rewrite-globals", "own_globals": og})
     if r["diff"] is not None:
         chans = r["channels"]
         ctx.count("interleave:differs:" + "+".join(chans))
         small = sched
-        if shrink:
+        # a difference that is entirely a recorded open finding is reported as KNOWN-FINDING whatever its size: shrink only what is new
+        if shrink and not all(_is_known({"kind": "instance-interference", "channel": ch}) for ch in chans):
             try:
                 small = _shrink_schedule(cfg_a, cfg_b, sched, chans)
             except Exception:
@@ -773,7 +811,7 @@ def _interleaving_case(ctx: "Rec", label: str, la, lb, cfg_a: Dict, cfg_b: Dict,
                           {**replay_info, "schedule": [list(x) for x in small], "channel": ch, "residual": r.get("residual")})
     else:
         ctx.count("interleave:equal")
-    ctx.sample({"rig": "interleaving", "pair": label, "ops": len(sched), "b_ops": sum(1 for e in sched if e[0] == 'B'),
+    ctx.sample({"rig": "interleaving", "pair": label, "ops": len(sched), "b_ops": sum(1 for e in sched if e[0] != 'A'),
                 "equal": r["diff"] is None, "channels": r["channels"]}, cap=8)
     lines, idx = iso.model_lines(cfg_a, cfg_b, sched, {})
     model_lines += lines
@@ -824,9 +862,13 @@ def _do_sched(rec: Rec, unit: dict):
     k_max = unit["episodes"] or (n + 2)
     # the plan (seed and actions of every episode) is drawn here so that the replay record carries it
     plan = []
+    fd0 = isd.read_folder(folder)
+    off = rng.below(6)
     for k in range(k_max + 1):
         r = rng.fork(f"ep{k}")
-        plan.append({"seed": r.below(2 ** 31), "acts": [0 if r.chance(1, 6) else r.below(2 ** 16) for _ in range(unit["steps"] if k else max(2, unit["steps"] // 2))]})
+        # the seed argument of episode k's reset: the family (0, 1, that episode's configured game.seed, largest, random, None) in rotation
+        fam = iso.seed_family(iso.configured_seed(isd.join_cfg(fd0, k)), r.fork("family"))
+        plan.append({"seed": fam[(k + off) % len(fam)], "acts": [0 if r.chance(1, 6) else r.below(2 ** 16) for _ in range(unit["steps"] if k else max(2, unit["steps"] // 2))]})
     _sched_case(rec, unit["label"], {"files": files, "plan": plan, "only": unit.get("only")}, shrink=True)
 
 
@@ -877,7 +919,8 @@ def _sched_case(rec: Rec, label: str, rp: dict, shrink: bool):
                 small = {**rp, "only": [k]}
         rec.violation({"kind": "scheduled-episode-not-fresh", "component": d["component"], "first_use_of_files": d["first_use_of_files"]},
                       f"{label}: episode {k} (schedule entry {d['entry']}: {d['files']}) reached by {k} reset(s) of one environment differs from a new "
-                      f"environment constructed from that episode's scenario (both reset(seed={rp['plan'][k]['seed']}), same actions) at record "
+                      f"environment constructed from that episode's scenario (both reset(seed={rp['plan'][k]['seed']})"
+                      + (" = no seed argument, the reference starting from the same generator state" if rp['plan'][k]['seed'] is None else "") + ", same actions) at record "
                       f"{d['index']} in {d['component']} {d.get('path', '')}: long-lived={d.get('a')} fresh={d.get('b')}"
                       + (f"; {len(r['diffs'])} of {len(r['compared'])} compared episodes differ" if len(r["diffs"]) > 1 else ""),
                       {"type": "schedule-freshness", **small, "diff": d, "episode": k})
@@ -887,14 +930,19 @@ def _sched_case(rec: Rec, label: str, rp: dict, shrink: bool):
     fd = {"entries": entries, "texts": {fn: rp["files"][fn] for e in entries for fn in e}, "base": rp["files"][_base_name(rp["files"])]}
     nm = {json.dumps(isd.join_cfg(fd, j).get("simulation", {}).get("network", {}).get("nmne_config", "<absent>"), sort_keys=True) for j in range(n)}
     var = int(len(nm) > 1)
+    for k in r["compared"]:
+        rec.count("sched:seed-argument:" + _seed_class(rp["plan"][k]["seed"], iso.configured_seed(isd.join_cfg(fd, k))))
     for k in r["compared"][-2:]:
-        lines = ["reset", f"new 0 7 1 0 1 1 {var}", f"new 1 {7 + k} {1 + var * k} 0 1 0 0", "ev 0 constructns 0"]
+        sk = rp["plan"][k]["seed"]
+        lines = ["reset", f"new 0 7 1 0 1 1 {var}", f"new 1 {7 + k} {1 + var * k} 0 1 0 0", "ev 0 constructopt none"]
         lines += [f"ev 0 step {a % 1000}" for a in rp["plan"][0]["acts"]]
         for j in range(1, k + 1):
-            lines.append(f"ev 0 reset {rp['plan'][j]['seed'] % 100000}")
+            if j == k and sk is None:
+                lines.append("saverng")
+            lines.append(f"ev 0 resetopt {iso.seed_text(rp['plan'][j]['seed'])}")
             lines += [f"ev 0 step {a % 1000}" for a in rp["plan"][j]["acts"]]
-        tail = [f"ev 1 reset {rp['plan'][k]['seed'] % 100000}"] + [f"ev 1 step {a % 1000}" for a in rp["plan"][k]["acts"]]
-        lines += ["ev 1 constructns 0"] + tail + [f"cmptail 0 1 {len(tail)}"]
+        tail = [f"ev 1 resetopt {iso.seed_text(sk)}"] + [f"ev 1 step {a % 1000}" for a in rp["plan"][k]["acts"]]
+        lines += ["ev 1 constructopt none"] + (["restorerng"] if sk is None else []) + tail + [f"cmptail 0 1 {len(tail)}"]
         rec.model_lines += lines
         rec.expectations += [("skip", None)] * (len(lines) - 1) + [("sched", (f"{label}#ep{k}", k not in bad))]
 
